@@ -29,6 +29,16 @@ from xdsl.irdl import (
 from xdsl.traits import SymbolTable
 
 
+def _dynamic_attr_eq(self: ParametrizedAttribute, other: object) -> bool:
+    return type(self) is type(other) and self.parameters == cast(
+        ParametrizedAttribute, other
+    ).parameters
+
+
+def _dynamic_attr_hash(self: ParametrizedAttribute) -> int:
+    return hash((type(self), self.parameters))
+
+
 @register_impls
 class IRDLFunctions(InterpreterFunctions):
     @staticmethod
@@ -242,7 +252,13 @@ class IRDLFunctions(InterpreterFunctions):
                             entry.sym_name.data,
                             (TypeAttribute, ParametrizedAttribute),
                             dict(ParametrizedAttribute.__dict__)
-                            | {"name": entry.qualified_name},
+                            | {
+                                "name": entry.qualified_name,
+                                # The parameters of dynamically defined types are not
+                                # dataclass fields, compare and hash them explicitly.
+                                "__eq__": _dynamic_attr_eq,
+                                "__hash__": _dynamic_attr_hash,
+                            },
                         )
                     )
 
